@@ -20,7 +20,7 @@ Definition read_aop (a : aop) : Prop :=
   match a with ARead _ | AReadAll | AAvail => True | _ => False end.
 
 Definition passive (p : pol) : Prop :=
-  (forall rq, Forall read_aop (on_headers p rq)) /\ Forall read_aop (on_ready p) /\ Forall read_aop (on_finished p).
+  (forall rq a, Forall read_aop (on_headers p rq a)) /\ Forall read_aop (on_ready p) /\ Forall read_aop (on_finished p).
 
 Lemma blen_app a b : blen (a ++ b) = blen a + blen b.
 Proof. unfold blen. rewrite app_length. lia. Qed.
@@ -442,10 +442,10 @@ Proof.
     - rewrite Hnr, Hq. reflexivity.
     - rewrite Hq. cbn. rewrite Hrest'. rewrite firstn_firstn, Nat.min_id. reflexivity. }
   destruct Hp as (Hph & Hpr' & Hpf).
-  destruct (read_aops_J0 e N rest' (on_headers p rq) [] s1 (Hph rq) Hj1) as (Hj2 & Hf2 & Hs2).
+  destruct (read_aops_J0 e N rest' (on_headers p rq (avail s1)) [] s1 (Hph rq (avail s1)) Hj1) as (Hj2 & Hf2 & Hs2).
   cbn [app] in Hj2.
   (* both orders of the observer's slot lead to the same state; only the log order differs *)
-  set (m2 := apply_aops e s1 (on_headers p rq)) in *.
+  set (m2 := apply_aops e s1 (on_headers p rq (avail s1))) in *.
   assert (Hpre : PreData N rest' (reads_of_evs (snd m2)) (fst m2)).
   { destruct Hj2 as [A B C D E F G]. destruct Hs2 as (_ & _ & _ & R & _).
     assert (Hlen : blen rest' <= N).
